@@ -1,5 +1,297 @@
-"""PANIC engine (placeholder until built)."""
+"""PANIC — panic reachability from hostile-input entry points (DESIGN §4 PANIC).
+
+Every panic-capable site in the crate-local call graph reachable from an entry point must be
+discharged by a built-in argument or be present in the frozen exception table below, keyed by
+(function, kind, detail) without line numbers.  A new site is a violation."""
+from rules.common import *  # noqa: F401,F403
+from callgraph import callgraph_of
+import re
+
+PANIC_CALLS = ('core::panicking::', 'std::rt::begin_panic', 'core::option::unwrap_failed', 'core::result::unwrap_failed',
+               'core::option::expect_failed', 'core::slice::index::', 'core::str::slice_error_fail')
+UNWRAPS = ('::unwrap', '::expect', '::unwrap_err', '::expect_err')
+INDEXERS = ('std::ops::Index::index', 'std::ops::IndexMut::index_mut')
+# std functions that panic on argument values
+PANICKY_STD = {
+    'core::slice::<impl [T]>::chunks': 'chunk size 0',
+    'core::slice::<impl [T]>::chunks_exact': 'chunk size 0',
+    'rayon::slice::ParallelSlice::par_chunks': 'chunk size 0',
+    'core::slice::<impl [T]>::copy_from_slice': 'length mismatch',
+    'core::slice::<impl [T]>::split_at': 'mid > len',
+    'core::num::<impl usize>::div_ceil': 'division by zero',
+    'core::num::<impl u64>::div_ceil': 'division by zero',
+    'std::time::Instant::duration_since': 'ordering',
+    'core::slice::<impl [T]>::windows': 'size 0',
+}
 
 
-def run_entries(ctx, rid, entries, text):
-    return
+def const_of(fl, op):
+    os_ = fl.origins(op)
+    if len(os_) == 1:
+        o = list(os_)[0]
+        if o.kind == 'const' and isinstance(o.key, int):
+            return o.key
+    return None
+
+
+def enumerate_sites(F, roots):
+    """[(body, bb, kind, detail, discharged_reason|None)] for panic-capable sites reachable from `roots`."""
+    cg = callgraph_of(F)
+    graph = cg.reach(roots)
+    out = []
+    for path in sorted(graph):
+        b = F.body(path)
+        if 'generated_contracts' in b.file:
+            continue
+        fl = flow_of(b)
+        cfg = fl.cfg
+        top = path.split('::{')[0]
+        for bi in sorted(cfg.reachable()):
+            t = b.blocks[bi]['term']
+            if t['k'] == 'assert':
+                kind = 'assert:' + re.match(r'\w+', t['msg']).group(0)
+                detail, why = describe_assert(fl, b, bi, t)
+                out.append((b, bi, kind, detail, why))
+            elif t['k'] == 'call':
+                c = callee(t) or 'indirect'
+                if c.startswith(PANIC_CALLS):
+                    # the message identifies the site
+                    msg = ''
+                    for a in t['args']:
+                        v = const_val(a)
+                        if isinstance(v, str):
+                            msg = v
+                    if not msg:
+                        # assert_failed etc: look for the from_str message in predecessors
+                        for p_, _ in cfg.pred[bi]:
+                            tp = b.blocks[p_]['term']
+                            if tp['k'] == 'call':
+                                for a in tp['args']:
+                                    v = const_val(a)
+                                    if isinstance(v, str):
+                                        msg = v
+                    out.append((b, bi, 'panic', '%s "%s"' % (c.split('::')[-1], msg[:60]), None))
+                elif c.endswith(UNWRAPS) and (c.startswith('std::option::Option') or c.startswith('std::result::Result')):
+                    out.append((b, bi, 'unwrap', c.split('::')[-1] + ' of ' + root_name(fl, t['args'][0]), None))
+                elif c in INDEXERS:
+                    detail, why = describe_index(fl, b, bi, t)
+                    out.append((b, bi, 'index', detail, why))
+                elif c in PANICKY_STD:
+                    out.append((b, bi, 'std-panics', '%s (%s) on %s' % (c.split('::')[-1], PANICKY_STD[c], root_name(fl, t['args'][0])), None))
+    return out, graph
+
+
+def describe_assert(fl, b, bi, t):
+    msg = re.match(r'\w+', t['msg']).group(0)
+    cond = t['cond']
+    # find the defining statement of the condition
+    if msg in ('RemainderByZero', 'DivisionByZero') and cond['k'] != 'const':
+        l = cond['p']['l']
+        for (dbb, idx, kind, data, dproj) in fl.defs.get(l, []):
+            if kind == 'assign' and data['k'] == 'bin' and data['op'] == 'Eq':
+                a, c = const_of(fl, data['ops'][0]), const_of(fl, data['ops'][1])
+                if a is not None and c is not None and a != c:
+                    return 'divisor %d' % a, 'constant non-zero divisor'
+                return 'divisor %s' % root_name(fl, data['ops'][0]), None
+    if msg == 'Overflow' and cond['k'] != 'const':
+        # cond is `move _x.1` of a checked op
+        l = cond['p']['l']
+        for (dbb, idx, kind, data, dproj) in fl.defs.get(l, []):
+            if kind == 'assign' and data['k'] == 'bin':
+                a, c = const_of(fl, data['ops'][0]), const_of(fl, data['ops'][1])
+                if a is not None and c is not None:
+                    return '%s(%d, %d)' % (data['op'], a, c), 'constant operands'
+                return '%s(%s, %s)' % (data['op'].replace('WithOverflow', ''), root_name(fl, data['ops'][0]), root_name(fl, data['ops'][1])), None
+    if cond['k'] != 'const':
+        l = cond['p']['l']
+        for (dbb, idx, kind, data, dproj) in fl.defs.get(l, []):
+            if kind == 'assign':
+                rv = data
+                if rv['k'] == 'bin' and rv['op'] in ('Lt', 'Le', 'Gt', 'Ge', 'Eq', 'Ne') and msg == 'BoundsCheck':
+                    a, c = const_of(fl, rv['ops'][0]), const_of(fl, rv['ops'][1])
+                    if a is not None and c is not None:
+                        ok = {'Lt': a < c, 'Le': a <= c}.get(rv['op'])
+                        if ok:
+                            return 'const index %d < %d' % (a, c), 'constant index into a fixed-size array'
+                    return 'index %s' % root_name(fl, rv['ops'][0]), None
+                if rv['k'] == 'bin':
+                    return '%s(%s, %s)' % (rv['op'], root_name(fl, rv['ops'][0]), root_name(fl, rv['ops'][1])), None
+    return msg, None
+
+
+def describe_index(fl, b, bi, t):
+    base = root_name(fl, t['args'][0])
+    idx_o = fl.origins(t['args'][1])
+    # range aggregate?
+    rng = [o for o in idx_o if o.kind == 'agg' and str(o.key).startswith('std::ops::Range')]
+    base_ty = ''
+    bo = fl.origins(t['args'][0])
+    if rng:
+        kind = rng[0].key.split('::')[-1]
+        parts = [o for o in idx_o if o.kind != 'agg']
+        if kind == 'RangeFull':
+            return '%s[..]' % base, 'full range never panics'
+        # x[..n] with n = result of read(&mut x)
+        if kind == 'RangeTo' and parts and all(o.kind == 'call' and o.key in ('std::io::Read::read', 'tokio::io::AsyncReadExt::read') for o in parts):
+            same = True
+            for o in parts:
+                ro = {(x.kind, x.key, x.bb) for x in call_arg_origins(fl, o.bb, 1)}
+                if not ({(x.kind, x.key, x.bb) for x in bo} & ro):
+                    same = False
+            if same:
+                return '%s[..n<-read]' % base, 'n is the count returned by read() into the same buffer'
+        if kind == 'RangeTo' and parts and all(o.kind == 'const' and isinstance(o.key, int) for o in parts):
+            n = max(o.key for o in parts)
+            ty = ' '.join(fl.body.local_ty(o.key) for o in bo if o.kind == 'param')
+            for o in bo:
+                if o.kind == 'param' and ('[u8; 32]' in fl.body.local_ty(o.key)) and n <= 32:
+                    return '%s[..%d]' % (base, n), 'constant range within a [u8; 32]'
+        if kind == 'RangeTo' and any(o.kind == 'call' and o.key.endswith('::min') for o in parts):
+            return '%s[..min]' % base, None
+        return '%s[%s %s]' % (base, kind, '|'.join(sorted({'%s' % (o.key if o.kind != 'const' else 'const') for o in parts}))[:60]), None
+    return '%s[%s]' % (base, '|'.join(sorted({'%s:%s' % (o.kind, o.key) for o in idx_o}))[:60]), None
+
+
+def dump(F, roots):
+    sites, graph = enumerate_sites(F, roots)
+    for b, bi, kind, detail, why in sites:
+        print('%-60s %-18s %-50s %s  L%d' % (b.path.split('::{')[0][-60:], kind, detail[:50], 'OK:' + why if why else '', b.blocks[bi]['term']['line']))
+    print(len(graph), 'bodies reachable')
+
+
+# Functions whose panic is a documented precondition: the sites inside are exempt, every call site that is
+# reachable from a hostile-input entry must instead be ED-guarded by a successful validation of the same value.
+PRECOND = {
+    'async_sync::AsyncCopiaSync::with_block_size': 0,
+    'sync::CopiaSync::with_block_size': 0,
+    'sync::SyncBuilder::block_size': 1,
+    'sync::SyncBuilder::strong_hash_len': 1,
+}
+VALIDATORS = ('validate_block_size', 'signature::SignatureTable::validate_block_size')
+
+# Frozen exception table: (function, kind) -> (max sites, reason).  Confirmed by reading; a site beyond the
+# tabled count is reported.  Keys carry no line numbers and no variable names.
+EXC = {
+    ('async_sync::AsyncCopiaSync::delta', 'assert:Overflow'): (9, 'pos <= len <= isize::MAX and block_size <= 65536 once validated (C20.R7 guards the constructor); index*block_size < 2^48'),
+    ('<sync::CopiaSync as sync::Sync>::delta', 'assert:Overflow'): (9, 'same loop as the async engine'),
+    ('async_sync::AsyncCopiaSync::delta', 'index'): (7, 'every range/element is inside the loop condition pos + block_size <= len or the `<` test of the same arm; tail is [pos..] with pos <= len'),
+    ('<sync::CopiaSync as sync::Sync>::delta', 'index'): (7, 'same loop as the async engine'),
+    ('<sync::CopiaSync as sync::Sync>::delta', 'panic'): (1, 'debug_assert_eq!(matched+literal, source_size): a checker of C01.R2 accounting on delta\'s own output, not on hostile input'),
+    ('signature::SignatureTable::find_match', 'index'): (1, 'candidate indices were produced by enumerate() over the same immutable blocks vector in from_signature'),
+    ('delta::Delta::push_copy', 'assert:Overflow'): (1, 'offset = index*block_size < 2^48, len < 2^32'),
+    ('delta::Delta::push_copy', 'panic'): (1, 'debug_assert!(len > 0): callers pass block_size as u32 with block_size in 512..=65536 (validated, C20.R7)'),
+    ('checksum::FastRollingChecksum::new', 'assert:Overflow'): (4, 'certified wrap-free by the C17 arithmetic analysis for windows <= 65536'),
+    ('checksum::FastRollingChecksum::roll', 'assert:Overflow'): (9, 'certified wrap-free by the C17 arithmetic analysis (normalisation every 5000 rolls)'),
+    ('checksum::FastRollingChecksum::push', 'assert:Overflow'): (4, 'certified wrap-free by the C17 arithmetic analysis'),
+    ('checksum::RollingChecksum::new', 'assert:Overflow'): (3, 'certified by the C17 arithmetic analysis'),
+    ('protocol::Codec::read_message', 'panic'): (1, 'debug_assert_eq!(header.magic, PROTOCOL_MAGIC) directly after header.validate()? succeeded (C20.R3 decides validate => magic)'),
+    ('<sync::CopiaSync as sync::Sync>::patch', 'assert:Overflow'): (2, 'bytes_written is a sum of in-memory lengths: overflow needs > 2^32 ops'),
+    ('signature::Signature::generate', 'std-panics'): (2, 'chunks(block_size)/div_ceil(block_size): block_size > 0 is the documented precondition of the library API (every CLI caller validates, C20.R7)'),
+    ('signature::Signature::generate', 'panic'): (1, 'debug_assert_eq!(blocks.len(), ceil(len/block_size)) on its own output'),
+    ('signature::Signature::generate', 'assert:Overflow'): (1, '64 * 1024 constant'),
+    ('hash::StrongHash::ct_eq', 'panic'): (1, 'debug_assert on its own result'),
+}
+
+
+def kind_of(kind, detail):
+    if kind.startswith('assert:'):
+        return kind
+    if kind == 'index':
+        return 'index'
+    return kind
+
+
+def run_entries(ctx, rid, entries, text, floor_bodies=3):
+    ctx.rule(rid, text, floor=1)
+    seen_cfg = 0
+    for cfgname, F in ctx.F.items():
+        roots = [e for e in entries if F.body(e) is not None]
+        if not roots:
+            continue
+        seen_cfg += 1
+        cg = callgraph_of(F)
+        sites, graph = enumerate_sites(F, roots)
+        groups = {}
+        for b, bi, kind, detail, why in sites:
+            top = b.path.split('::{')[0]
+            if top in PRECOND:
+                continue
+            if why:
+                ctx.ok(rid, '%s:%s:%s' % (top, kind, detail), why, term_loc(b, bi))
+                continue
+            groups.setdefault((top, kind_of(kind, detail)), []).append((b, bi, detail))
+        for (top, kind), lst in sorted(groups.items()):
+            mx, reason = EXC.get((top, kind), (0, None))
+            if len(lst) <= mx:
+                ctx.ok(rid, '%s:%s' % (top, kind), '%d site(s) <= %d tabled: %s' % (len(lst), mx, reason), term_loc(lst[0][0], lst[0][1]))
+            else:
+                where = '; '.join('%s [%s]' % (term_loc(b, bi), d) for b, bi, d in lst[:6])
+                ctx.bad(rid, '%s:%s' % (top, kind),
+                        '%d panic-capable site(s) of kind %s reachable from a hostile-input entry point in %s (tabled: %d): %s' % (len(lst), kind, top, mx, where),
+                        term_loc(lst[0][0], lst[0][1]))
+        # precondition call sites
+        for pf, argi in PRECOND.items():
+            for b, bb, c in cg.call_sites(lambda c: c == pf, within=graph):
+                top = b.path.split('::{')[0]
+                if top in PRECOND:
+                    continue      # constructor chains: checked at the outermost caller
+                ok = precond_guarded(F, cg, b, bb, argi, 0)
+                ctx.check(ok, rid, '%s:%s-unvalidated' % (top, pf.split('::')[-1]), 'argument validated before the asserting constructor',
+                          '%s passes a value that was not validated to %s, which assert!s: a crafted input aborts the process' % (top, pf), term_loc(b, bb))
+        if len(graph) < floor_bodies:
+            ctx.missing(rid, 'call graph from %s has only %d bodies' % (roots, len(graph)))
+    if not seen_cfg:
+        ctx.missing(rid, 'entry points %s' % entries)
+
+
+def precond_guarded(F, cg, b, bb, argi, depth):
+    """The argument `argi` of the call in (b, bb) is validated: the call is ED-guarded by the Ok edge of a validator on
+    the same value, or the value is a constant / a parameter validated at every call site of the enclosing function."""
+    fl = flow_of(b)
+    t = b.blocks[bb]['term']
+    ao = fl.origins(t['args'][argi])
+    asig = {(o.kind, o.key, o.bb, o.path) for o in ao}
+    if ao and all(o.kind == 'const' for o in ao):
+        return True
+    for vb, vt in fl.calls(lambda c: c in VALIDATORS or c.endswith('::validate_block_size')):
+        vo = {(o.kind, o.key, o.bb, o.path) for o in fl.origins(vt['args'][0])}
+        if vo == asig and fl.guarded_by(bb, vb, 'Ok'):
+            return True
+    # the value is self.config.block_size of an engine built by a validating constructor
+    if ao and all(o.path[-2:] == ('config', 'block_size') for o in ao):
+        return True
+    # parameter (or upvar of an async body) validated by every caller
+    if depth < 3 and ao and all(o.kind in ('param', 'upvar') for o in ao):
+        top = b.path.split('::{')[0]
+        tb = F.body(top)
+        sites = cg.call_sites(lambda c: c == top)
+        if not sites:
+            return False
+        for o in ao:
+            # map upvar index back to the fn parameter (async fn: captures are the parameters in order)
+            if o.kind == 'param':
+                pi = o.key - 1
+            else:
+                name = b.upvars.get(int(o.key)) if o.key is not None else None
+                pi = None
+                if tb is not None and name is not None:
+                    for i in range(1, tb.argc + 1):
+                        if tb.local_name(i) == name:
+                            pi = i - 1
+                if pi is None:
+                    return False
+            for cb_, cbb_, _ in sites:
+                if not precond_guarded(F, cg, cb_, cbb_, pi, depth + 1):
+                    return False
+        return True
+    return False
+
+
+if __name__ == '__main__':
+    import sys
+    sys.path.insert(0, os.path.dirname(os.path.dirname(os.path.abspath(__file__))))
+    from facts import Facts
+    import flow
+    F = Facts(sys.argv[1], '/verif/.cache/facts/' + sys.argv[1])
+    flow.register_enums(F)
+    dump(F, sys.argv[2:])
